@@ -37,7 +37,8 @@ _LABELS = ["example", "com", "a", "www", "EXAMPLE", "x-y", "a_b", "localhost", "
 _UNI_ALPHA = "äöüéñßçøåλπωδжщяיםあア例漢字测试"
 _UNI_LABELS = ["bücher", "例え", "テスト", "ελληνικά", "россия", "ÄÖÜ", "a-ü-b"]
 _IPV4 = ["127.0.0.1", "0.0.0.0", "255.255.255.255", "10.0.0.1"]
-_IPV6 = ["::1", "::", "2001:db8::1", "2001:DB8::A", "::ffff:1.2.3.4", "fe80::1", "1:2:3:4:5:6:7:8"]
+_IPV6 = ["::1", "::", "2001:db8::1", "2001:DB8::A", "::ffff:1.2.3.4", "fe80::1", "1:2:3:4:5:6:7:8", "64:ff9b::192.0.2.1",
+         "::FFFF:255.255.255.255", "::1.2.3.4", "2001:0db8:0000:0000:0000:0000:0000:0001", "0:0:0:0:0:ffff:10.0.0.1"]
 _pchar = "abcXYZ019-._~!$&'()*+,;=:@"
 _SEGS = ["", "a", "index.html", "%20", "%2F", "%C3%A4", "%e4", "..", ".", "a;b=c", "*", "~u", "a:b@c", "%00"]
 _QS = ["a=b", "a=b&c=d", "x", "a=%26&b=%3D", "q=a+b", "a=b;c=d", "/?/", "%C3%A4=%FF", "a==b&&"]
@@ -74,12 +75,57 @@ def _g_ipv4(rnd):
     return pick(rnd, _IPV4) if rnd.random() < 0.4 else str(ipaddress.IPv4Address(rnd.getrandbits(32)))
 
 
+def _v6_forms(a, rnd):
+    """one of the textual forms RFC 4291 2.2 / RFC 5952 allow for the same address: compressed, exploded, without
+    zero compression, upper case, leading zeros dropped or kept, last 32 bits as dotted quad"""
+    form = rnd.randrange(7)
+    groups = a.exploded.split(":")
+    if form == 0:
+        t = a.compressed
+    elif form == 1:
+        t = a.exploded
+    elif form == 2:
+        t = ":".join(g.lstrip("0") or "0" for g in groups)          # no "::" at all
+    elif form == 3:
+        t = a.compressed.upper()
+    else:
+        # dotted-quad tail (x:x:x:x:x:x:d.d.d.d); head compressed when it is all zero / ends in zeros
+        quad = str(ipaddress.IPv4Address(int(a) & 0xFFFFFFFF))
+        head = [g.lstrip("0") or "0" for g in groups[:6]]
+        if form == 4:
+            t = ":".join(head) + ":" + quad
+        else:
+            i = len(head)
+            while i > 0 and head[i - 1] == "0":
+                i -= 1
+            j = 0
+            while j < i and head[j] == "0":
+                j += 1
+            if i < len(head):                   # trailing zero groups -> "h:h::d.d.d.d"
+                t = ":".join(head[:i]) + "::" + quad
+            elif j > 0:                         # leading zero groups -> "::h:d.d.d.d"
+                t = "::" + ":".join(head[j:]) + ":" + quad
+            else:
+                t = ":".join(head) + ":" + quad
+            if form == 6:
+                t = t.upper()
+    if ipaddress.IPv6Address(t) != a:
+        raise AssertionError("bad IPv6 rendering %r of %r" % (t, a))
+    return t
+
+
+_V6_PREFIXES = [0, 0xFFFF << 32, 0x64FF9B << 96, 0x20010DB8 << 96, 0xFE80 << 112, 1 << 32]
+
+
 def _g_ipv6(rnd):
     r = rnd.random()
-    if r < 0.4:
+    if r < 0.25:
         return pick(rnd, _IPV6)
-    a = ipaddress.IPv6Address(rnd.getrandbits(128) & rnd.getrandbits(128))   # AND: runs of zero groups are common
-    return str(a) if r < 0.75 else a.exploded
+    if r < 0.6:
+        a = ipaddress.IPv6Address(pick(rnd, _V6_PREFIXES) | rnd.getrandbits(32))     # v4-mapped, NAT64, v4-compatible ...
+    else:
+        a = ipaddress.IPv6Address(rnd.getrandbits(128) & rnd.getrandbits(128))        # AND: runs of zero groups are common
+    return _v6_forms(a, rnd)
 
 
 def _g_host(rnd):
@@ -276,6 +322,35 @@ def _check_pointing(r, ctx, after):
         if got != want:
             ctx.fail("stale:%s:%s" % (where, after), "after %s: %s is %r but the request goes to %r port %r (scheme %r)"
                      % (after, where, val, r.host, r.port, r.scheme))
+            continue
+        # the value is a well-formed authority for the right destination: mitmproxy's own parse_authority (the inverse of
+        # hostport, used for pretty_host/pretty_url and when reading request lines) has to read it the same way
+        from mitmproxy.net.http import url as murl
+        hcls = "ipv6" if ipv6 else want[0][0]
+        raw = r.data.authority if where == "authority" else next(v for k, v in r.headers.fields if k.lower() == b"host")
+        for form in (val, raw):          # as str (API view) and as the stored bytes (wire view)
+            try:
+                mh, mp = murl.parse_authority(form, check=True)
+            except ValueError:
+                if isinstance(form, bytes) and not form.isascii() and where == "host-header":
+                    ctx.fail("wire-form:host-header-raw-utf8", "after %s: Host header bytes %r carry the U-label host as raw UTF-8 "
+                             "(not IDNA A-labels); mitmproxy's own parse_authority rejects them" % (after, form))
+                    break
+                if isinstance(form, bytes) and where == "authority" and b":" in form.rsplit(b".", 1)[-1] and (
+                        not form.isascii() or form.rsplit(b".", 1)[-1].lower().startswith(b"xn--")):
+                    ctx.fail("wire-form:authority-idna-with-port", "after %s: stored authority %r: the last label was IDNA-encoded "
+                             "together with ':port' (or, where that fails, the whole value is stored as raw UTF-8)" % (after, form))
+                    break
+                ctx.fail("parse_authority-rejects:%s:%s" % (where, hcls), "after %s: %s %r (own hostport output) is rejected by parse_authority" % (after, where, form))
+                break
+            if (norm_host(mh), mp if mp is not None else _DEFAULT.get(r.scheme)) != want:
+                ctx.fail("parse_authority-disagrees:%s:%s" % (where, hcls), "after %s: parse_authority(%r) = %r, request goes to %r port %r"
+                         % (after, form, (mh, mp), r.host, r.port))
+                break
+        else:
+            ph = r.pretty_host
+            if norm_host(ph) != want[0]:
+                ctx.fail("pretty_host:%s" % hcls, "after %s: pretty_host %r for host %r (%s %r)" % (after, ph, r.host, where, val))
 
 
 def _check_url(r, u, ctx):
